@@ -282,6 +282,50 @@ def deref_val(I, v, env):
     return v
 
 
+def clone_is_fieldwise_identity(f, path, depth=0):
+    """A hand-written `clone` that is what the derive would have written — decided on its MIR: straight-line code, one aggregate of
+    the Self type reaching the return place, every field rooted (through Clone::clone / copies / borrows) at the SAME field of `self`;
+    crate-local Clone impls it calls are themselves derived or of this form."""
+    from ..vals import Vals
+    b = next((b_ for b_ in f.mir.values() if b_.path == path), None)
+    if b is None or depth > 4 or b.arg_count != 1:
+        return False
+    live = [blk for blk in b.blocks if not blk["cleanup"]]
+    if any(blk["term"]["k"] == "switch" for blk in live):
+        return False
+    fns = {fn_["path"]: fn_ for fn_ in f.items["fns"]}
+    for blk in live:
+        t = blk["term"]
+        if t["k"] != "call":
+            continue
+        c = t.get("callee") or {}
+        if (c.get("trait") or "").split("::")[-1] != "Clone" or c.get("name") != "clone":
+            return False                      # any other call: not the plain field-wise form
+        for key in ("resolved", "path"):
+            p_ = c.get(key)
+            if p_ and any(b_.path == p_ for b_ in f.mir.values()):
+                rec = fns.get(p_)
+                if rec is None or not (rec.get("impl_derived") or clone_is_fieldwise_identity(f, p_, depth + 1)):
+                    return False
+                break
+    v = Vals(b)
+    aggs = [s_ for blk in live for s_ in blk["stmts"] if s_["k"] == "assign" and s_["rv"]["k"] == "aggregate" and s_["rv"].get("agg") == "adt"]
+    if len(aggs) != 1:
+        return False
+    st = aggs[0]
+    r0 = v.root({"k": "move", "place": {"l": 0, "p": []}}) if st["place"]["l"] != 0 else None
+    if st["place"]["p"] or (st["place"]["l"] != 0 and not (r0 is not None and r0.kind == "local" and r0.base[1] == st["place"]["l"] and not r0.path)):
+        return False
+    rv = st["rv"]
+    if not rv.get("fields") or len(rv["fields"]) != len(rv["ops"]):
+        return False
+    for name_, op in zip(rv["fields"], rv["ops"]):
+        r = v.root(op)
+        if not (r.kind == "arg" and r.base[1] == 1 and tuple(r.path) == (name_,)):
+            return False
+    return True
+
+
 def local_body(I, c):
     for key in ("resolved", "path"):
         p = c.get(key)
@@ -548,7 +592,7 @@ def call_values(I, c, args, e=None, env=None):
         lb_ = local_body(I, c)
         if lb_ is not None:
             rec_ = next((fn_ for fn_ in I.f.items["fns"] if fn_["path"] == lb_), None)
-            if rec_ is not None and not rec_.get("impl_derived"):
+            if rec_ is not None and not rec_.get("impl_derived") and not clone_is_fieldwise_identity(I.f, lb_):
                 return I.run_fn(lb_, args, None)
         return args[0]
     if tr in ("PartialOrd", "PartialEq") and name in ("lt", "le", "gt", "ge", "eq", "ne"):
